@@ -22,6 +22,7 @@ def h_wc(cfg):
     if r.check_all_depart_once():
         r.check_fifo_per_flow()
         r.check_work_conserving()
+        r.check_twin()
         check('c12.idle-at-end', r.sched.packet_in_service is None)
         check('c12.total-packets-zero', eq(r.sched.total_packets, 0))
     if r.n >= 2:
@@ -105,6 +106,15 @@ def jobs(tier, seed):
         if kind == 'WFQ':
             cfg['float_inexact'] = True
         js.append({'harness': 'wc', 'cfg': cfg, 'weight': 60, 'opts': {'max_paths': 20000}})
+    # two instances of one scheduler class in one environment (they share nothing)
+    for kind in KINDS:
+        cfg = {'kind': kind, 'rate': 8, 'table': TABLES[kind], 'flows': [0, 1, 0, 1], 'sorts': 'int', 'twin': True,
+               'burst': [0, 1, 0, 1]}
+        if kind == 'WFQ':
+            cfg['float_inexact'] = True
+        if kind == 'DRR':
+            cfg['smax'] = 3200
+        js.append({'harness': 'wc', 'cfg': cfg, 'weight': 30})
     # other line rates (dyadic 64, and 24 where 8*size/rate is not dyadic)
     for kind in KINDS:
         for rate in (64, 24):
@@ -147,7 +157,7 @@ META = {
             'and tables concrete); non-trivial = at least two packets / a sample taken while packets were queued',
     'required_labels': ['c12.work-conserving-rate-exact', 'c12.per-flow-fifo', 'c12.each-once', 'c12.size-counter',
                         'c12.byte-counter', 'c12.monitor-count', 'c12.monitor-bytes'],
-    'required_covers': ['nontrivial', 'classmap', 'monitor-sample-with-service'],
+    'required_covers': ['nontrivial', 'classmap', 'monitor-sample-with-service', 'two-instances'],
     'bounds': {'quick': 'six schedulers; n=3 packets (one 4-packet burst workload each), 2 flows, 3 flow patterns; rate 8; '
                         'tables {1,2}; class map {5->7, 6->7}; monitor: 2 packets, 2 samples',
                'thorough': 'n=4, all flow patterns over 2 flows; class-map workloads of 4; monitor 3 packets'},
